@@ -19,6 +19,8 @@ pub fn unescape(text: &[u8]) -> Option<(Vec<u8>, usize)> {
         let num_digits = if isdigit(text[1]) {
             i = 1;
             while i < text.len() && isdigit(text[i]) {
+                #[cfg(comrak_verif)]
+                crate::verif::step();
                 codepoint = (codepoint * 10) + (text[i] as u32 - '0' as u32);
                 codepoint = min(codepoint, 0x11_0000);
                 i += 1;
@@ -27,6 +29,8 @@ pub fn unescape(text: &[u8]) -> Option<(Vec<u8>, usize)> {
         } else if text[1] == b'x' || text[1] == b'X' {
             i = 2;
             while i < text.len() && isxdigit(&text[i]) {
+                #[cfg(comrak_verif)]
+                crate::verif::step();
                 codepoint = (codepoint * 16) + ((text[i] as u32 | 32) % 39 - 9);
                 codepoint = min(codepoint, 0x11_0000);
                 i += 1;
@@ -56,6 +60,8 @@ pub fn unescape(text: &[u8]) -> Option<(Vec<u8>, usize)> {
 
     let size = min(text.len(), ENTITY_MAX_LENGTH);
     for i in ENTITY_MIN_LENGTH..size {
+        #[cfg(comrak_verif)]
+        crate::verif::step();
         if text[i] == b' ' {
             return None;
         }
@@ -85,8 +91,12 @@ pub fn unescape_html(src: &[u8]) -> Vec<u8> {
     let mut v = Vec::with_capacity(size);
 
     while i < size {
+        #[cfg(comrak_verif)]
+        crate::verif::step();
         let org = i;
         while i < size && src[i] != b'&' {
+            #[cfg(comrak_verif)]
+            crate::verif::step();
             i += 1;
         }
 
